@@ -48,6 +48,18 @@
 //	                       `s.table[h] = …`) are fine.  The aliases found by the probing pass are handed to
 //	                       the emitting pass (fnSig.aliases), so the order of statements inside a loop does
 //	                       not matter.  (The second part left this to the review by hand.)
+//	                       A MUTATING METHOD on a struct that contains an aliased slice is judged by its
+//	                       ELEMENT-WRITE FOOTPRINT (elemFootprint below): the receiver-relative field paths of
+//	                       the slices whose elements the method — and the methods it calls — may write
+//	                       (`X[i] = …`, `X[i]++`, copy into / clear of / append to X, X handed to a function
+//	                       that writes that parameter).  `s.rehash(_p, a, b)`, which only writes
+//	                       `s.hash.table[…]`, is accepted although `_p` shares the array of `s.….Data`: the
+//	                       method gets the receiver and `_p` as independent values and Go computes the same
+//	                       as long as it writes no element of Data.  When the footprint cannot be determined
+//	                       syntactically (writes through something that is not a field path of the receiver,
+//	                       interface calls, closures, …) the whole receiver counts as written, as before.
+//	                       Assignments to fields as a whole (`s.W = i`, `s.Data = s.Data[:n]`) write no
+//	                       element of a shared array and are not part of the footprint.
 //
 // Nothing is opaque in HPParse: `_getLE64`, `getLE64`, `_getLE32` (bytes.go) are followed
 // automatically and translated, INCLUDING their panics (`_ = p[7]`); `hashValue` is the function of
@@ -67,6 +79,7 @@ package main
 import (
 	"go/ast"
 	"go/token"
+	"strings"
 )
 
 // topicsParse: the topics of this file; they are topics of the fifth part.
@@ -361,4 +374,279 @@ func (c *codegen) pureLenTag(e ast.Expr) bool {
 	}
 	id := call.Fun.(*ast.Ident)
 	return c.lookup(id.Name) == nil && rootIdent(call.Args[0]) != nil && indexOf(call.Args[0]) == nil
+}
+
+// ---------------------------------------------------------------- element-write footprint of a mutating method
+
+// rawFieldPath resolves the selector .f on the struct (Go name) t by Go's rule — shallowest depth of
+// embedding, unique there — on the declarations alone: the path of field names (an embedded struct is
+// named by its type) and the Go spelling of the field's type; nil if there is no such field or it is
+// ambiguous.
+func (c *codegen) rawFieldPath(t, f string) ([]string, string) {
+	type level struct {
+		name string
+		path []string
+	}
+	cur := []level{{t, nil}}
+	for depth := 0; depth < 20 && len(cur) > 0; depth++ {
+		var found []string
+		typ := ""
+		n := 0
+		var next []level
+		for _, l := range cur {
+			for _, sf := range c.structs[l.name] {
+				if sf.name == f || (sf.name == "" && sf.typ == f) {
+					found, typ = append(append([]string{}, l.path...), f), sf.typ
+					n++
+				}
+				if sf.name == "" {
+					if _, ok := c.structs[sf.typ]; ok {
+						next = append(next, level{sf.typ, append(append([]string{}, l.path...), sf.typ)})
+					}
+				}
+			}
+		}
+		if n > 1 {
+			return nil, ""
+		}
+		if n == 1 {
+			return found, typ
+		}
+		cur = next
+	}
+	return nil, ""
+}
+
+// recvRelPath: e is a pure field path `r.a.b` on the receiver variable r of a method of struct t ↦ the
+// resolved path (promoted fields spelled out) and the Go spelling of its type; ok = false for anything
+// else (indices, dereferences, pointer-typed fields on the way, unknown fields).
+func (c *codegen) recvRelPath(e ast.Expr, r, t string) (path []string, typ string, ok bool) {
+	comps := pathOf(e)
+	if comps == nil || comps[0] != r {
+		return nil, "", false
+	}
+	typ = t
+	for _, f := range comps[1:] {
+		if _, isStruct := c.structs[typ]; !isStruct {
+			return nil, "", false
+		}
+		p, nt := c.rawFieldPath(typ, f)
+		if p == nil {
+			return nil, "", false
+		}
+		path = append(path, p...)
+		typ = nt
+	}
+	return path, typ, true
+}
+
+// elemFootprint: the receiver-relative paths of the slices whose elements the method k may write, see the
+// header; ok = false when it cannot be determined (then the whole receiver counts as written).
+func (c *codegen) elemFootprint(k fnKey) (paths [][]string, ok bool) {
+	if c.footprints == nil {
+		c.footprints = map[fnKey]*footprint{}
+	}
+	if fp := c.footprints[k]; fp != nil {
+		return fp.paths, fp.ok && !fp.busy
+	}
+	fp := &footprint{busy: true}
+	c.footprints[k] = fp
+	fp.paths, fp.ok = c.elemFootprint1(k)
+	fp.busy = false
+	return fp.paths, fp.ok
+}
+
+type footprint struct {
+	paths [][]string
+	ok    bool
+	busy  bool // recursion: unknown
+}
+
+func (c *codegen) elemFootprint1(k fnKey) ([][]string, bool) {
+	fd := c.fns[k]
+	if fd == nil || fd.Body == nil || fd.Recv == nil || len(fd.Recv.List) != 1 || len(fd.Recv.List[0].Names) != 1 {
+		return nil, false
+	}
+	r := fd.Recv.List[0].Names[0].Name
+	if r == "_" {
+		return nil, true
+	}
+	params := map[string]bool{}
+	if fd.Type.Params != nil {
+		for _, f := range fd.Type.Params.List {
+			for _, id := range f.Names {
+				params[id.Name] = true
+			}
+		}
+	}
+	if declCounts(fd)[r] != 1 {
+		return nil, false // the receiver name is shadowed somewhere
+	}
+	var out [][]string
+	good := true
+	// target of an element-writing operation: the slice expression X (re-slicings stripped)
+	written := func(x ast.Expr) {
+		for {
+			switch y := x.(type) {
+			case *ast.ParenExpr:
+				x = y.X
+				continue
+			case *ast.SliceExpr:
+				x = y.X
+				continue
+			}
+			break
+		}
+		root := rootIdent(x)
+		switch {
+		case root == nil:
+			good = false
+		case root.Name == r:
+			if p, _, ok := c.recvRelPath(x, r, k.recv); ok && len(p) > 0 {
+				out = append(out, p)
+			} else {
+				good = false
+			}
+		case params[root.Name] && declCounts(fd)[root.Name] == 1 && pathOf(x) != nil && len(pathOf(x)) == 1:
+			// a slice PARAMETER written by the method: the call site checks the argument (`out` parameters)
+		default:
+			good = false // a local variable: it may share an array with a field of the receiver
+		}
+	}
+	elemTarget := func(l ast.Expr) {
+		// l contains an index expression: the innermost one (closest to the root) selects the array written
+		var ix *ast.IndexExpr
+		e := l
+		for e != nil {
+			switch y := e.(type) {
+			case *ast.ParenExpr:
+				e = y.X
+			case *ast.SelectorExpr:
+				e = y.X
+			case *ast.IndexExpr:
+				ix = y
+				e = y.X
+			case *ast.Ident:
+				e = nil
+			default:
+				good = false // dereference, call result, …
+				e = nil
+			}
+		}
+		if ix != nil {
+			written(ix.X)
+		}
+	}
+	ast.Inspect(fd.Body, func(n ast.Node) bool {
+		if !good {
+			return false
+		}
+		switch x := n.(type) {
+		case *ast.FuncLit, *ast.GoStmt, *ast.DeferStmt:
+			good = false
+		case *ast.AssignStmt:
+			if x.Tok == token.DEFINE {
+				break
+			}
+			for _, l := range x.Lhs {
+				if indexOf(l) != nil {
+					elemTarget(l)
+				} else if _, isStar := l.(*ast.StarExpr); isStar {
+					if id := rootIdent(l); id == nil || id.Name != r || len(pathOf(l.(*ast.StarExpr).X)) != 1 {
+						good = false // `*p = …` for a p other than the receiver itself
+					}
+				}
+			}
+		case *ast.IncDecStmt:
+			if indexOf(x.X) != nil {
+				elemTarget(x.X)
+			}
+		case *ast.RangeStmt:
+			if x.Tok == token.ASSIGN {
+				for _, l := range []ast.Expr{x.Key, x.Value} {
+					if l != nil && indexOf(l) != nil {
+						elemTarget(l)
+					}
+				}
+			}
+		case *ast.CallExpr:
+			switch f := x.Fun.(type) {
+			case *ast.Ident:
+				if c.fns[fnKey{"", f.Name}] == nil {
+					switch f.Name {
+					case "copy", "clear", "append":
+						if len(x.Args) > 0 {
+							written(x.Args[0])
+						}
+					}
+					break
+				}
+				hd := c.fns[fnKey{"", f.Name}]
+				if ri := c.reflOf(f.Name); ri != nil && ri.setter {
+					good = false
+					break
+				}
+				for i, a := range x.Args {
+					if c.writesParam(hd, i, 0) {
+						written(a)
+					}
+				}
+			case *ast.SelectorExpr:
+				root := rootIdent(f.X)
+				if root == nil {
+					good = false
+					break
+				}
+				if c.fns[fnKey{"", root.Name}] == nil && declCounts(fd)[root.Name] == 0 && root.Name != r && pathOf(f.X) != nil && len(pathOf(f.X)) == 1 {
+					break // a function of an imported package (bits.TrailingZeros64): writes nothing of ours
+				}
+				if root.Name != r {
+					// a method on a parameter or local: harmless only if no method of that name mutates anything
+					for h := range c.fns {
+						if h.recv != "" && h.name == f.Sel.Name && c.mutates[h] {
+							good = false
+						}
+					}
+					break
+				}
+				p, typ, ok := c.recvRelPath(f.X, r, k.recv)
+				if !ok {
+					good = false
+					break
+				}
+				typ = strings.TrimPrefix(typ, "*")
+				if len(p) == 0 {
+					typ = k.recv
+				}
+				h := fnKey{typ, f.Sel.Name}
+				if c.fns[h] == nil {
+					pp := c.promotedMethod(typ, f.Sel.Name, x)
+					if pp == nil {
+						good = false // an interface method, a function-valued field, …
+						break
+					}
+					p = append(append([]string{}, p...), pp...)
+					h = fnKey{pp[len(pp)-1], f.Sel.Name}
+				}
+				if !c.mutates[h] {
+					break
+				}
+				sub, ok := c.elemFootprint(h)
+				if !ok {
+					good = false
+					break
+				}
+				for _, q := range sub {
+					out = append(out, append(append([]string{}, p...), q...))
+				}
+			default:
+				good = false
+			}
+		}
+		return good
+	})
+	if !good {
+		return nil, false
+	}
+	return out, true
 }
